@@ -232,6 +232,31 @@ def run(tier):
         recs = [d(*(["x", "t", 7][: len(d.get_field_tuples())] if d is not Cc else [5, "t"]), _generated=gen.GEN) for d in order]
         cases.append(seq_case(recs, True, "seq:same-name-interleaved", "string"))
         ctx.case(("seq-same-name", len(order), order[0] is A))
+    # field names that are what the library's own functions call their parameters
+    Dp = RecordDescriptor("js/params", [("string", "self"), ("string", "cls"), ("varint", "args"), ("string", "kwargs"), ("string", "name"), ("string", "fields"), ("string", "record")])
+    for descriptors in (True, False):
+        cases.append(seq_case([Dp("s%d" % i, "c", i, "k", "n", "f", "r", _generated=gen.GEN) for i in range(3)], descriptors, "seq:field-names-like-parameters", "string"))
+        ctx.case(("seq-param-names", descriptors))
+    # a file of several MiB in which a line break falls EXACTLY on a multiple of 2**20 (and of 2**16): block-wise readers
+    # must not glue the lines around it together
+    Df = RecordDescriptor("js/filler", [("string", "f"), ("string", "tail")])
+    def _filler_recs(pad):
+        return [Df("x" * pad, "t", _generated=gen.GEN)] + [Df("y" * 70000, "t%d" % i, _generated=gen.GEN) for i in range(20)]
+    probe = os.path.join(tmp, "probe.json")
+    for target in (2 ** 20, 2 ** 16, 3 * 2 ** 20):
+        with RecordWriter("jsonfile://" + probe) as w:
+            for r in _filler_recs(1000):
+                w.write(r)
+        raw = open(probe, "rb").read()
+        second_line_end = raw.index(b"\n", raw.index(b"\n") + 1) + 1           # descriptor line + first record line
+        pad = 1000 + (target - second_line_end)
+        if pad > 0:
+            cases.append(seq_case(_filler_recs(pad), True, f"seq:line-break-exactly-at-{target}", "string"))
+            ctx.case(("seq-aligned-line-break", target))
+    os.remove(probe)
+    # more record types in one file than a registry of fixed size holds, one of them recurring
+    cases.append(seq_case(gen.many_types_stream(1300, 97), True, "seq:many-types-with-a-recurring-one", "string"))
+    ctx.case(("seq-many-types", 1300))
     # text that looks like structure, FOLLOWED by further records (one document per line, whatever the line contains)
     Tx = RecordDescriptor("js/text", [("string", "f"), ("string", "tail")])
     for texts in (["int main(void) {", "x", "} // end"], ["{{{", "}"], ['{"_type": "recorddescriptor"', "y"], ["[[", "]]", "{", "}"], ["\\{", '"{', "ok"]):
